@@ -69,7 +69,7 @@ view == <<tst, reg, ring, pend, cur, inop, stack, hs, spans, lsets, cph, ci, bat
 
 NS == 99    \* NOT_SAMPLED_COLLECT_ID
 
-Cfg == [cancelable |-> Cancelable, enabled |-> Enabled, ready |-> Ready, queue |-> QCap, stack |-> SCap, foreign |-> {}]
+Cfg == [cancelable |-> Cancelable, enabled |-> Enabled, ready |-> Ready, queue |-> QCap, stack |-> SCap, foreign |-> {}, tolm |-> 0, tolw |-> 0]
 
 Init ==
   /\ tst = [t \in Threads |-> IF t \in Born THEN "live" ELSE "unborn"]
